@@ -7,7 +7,11 @@ EXPLANATION = ("after every call: outcome, every in/out degree, the direction of
 def gen(rng, tier):
     out = []
     for _ in range(250 if tier == "quick" else 6000):
-        G, fam = common.random_connected_graph(rng, 2, 6); n = G["n"]; E = [(a, b) for a, b, _ in G["edges"]]
+        G, fam = common.random_connected_graph(rng, 2, 6)
+        r0 = rng.random()
+        if r0 < 0.05: G = common.mk_graph(rng.randint(1, 3), [], rng)               # no edge at all: every orientation is (vacuously) full
+        elif r0 < 0.12: G = common.add_isolated(rng, G)
+        n = G["n"]; E = [(a, b) for a, b, _ in G["edges"]]
         mode = rng.choice(["empty", "partial", "full", "acyclic", "acyclic", "invalid"])
         init = []
         if mode in ("partial", "full"):
